@@ -237,7 +237,13 @@ func (s *state) hget(l *Loc) *Term {
 			if best.t.Op == "zero" {
 				base = best.t
 			} else {
-				base = mk("sel", best.t, mk(strings.Join(l.Path[len(best.loc.Path):], "")))
+				rest := strings.Join(l.Path[len(best.loc.Path):], "")
+				if len(best.t.Args) == 0 && (strings.HasPrefix(best.t.Op, "$") || strings.HasPrefix(best.t.Op, "@")) && best.t.Op != "$" {
+					// a copy of (part of) a parameter or global: its parts are the parts of the original
+					base = mk(best.t.Op + rest)
+				} else {
+					base = mk("sel", best.t, mk(rest))
+				}
 			}
 		}
 		// newer writes to overlapping windows next to l (same parent)
